@@ -17,10 +17,6 @@ def nonmembership_sound_goal (H : Bytes → Bytes) : Prop :=
     -- hypothesis still to be modelled
     True → lookup key t.toList = none ∨ Collision H
 
-/-- C11: number of stored nodes fetched by a lookup with nothing cached is at most 2h+2 -/
-def read_cost_goal : Prop :=
-  ∀ (fetches : Node Bytes Bytes → Bytes → Nat) (t : Node Bytes Bytes) (k : Bytes), AVL t → fetches t k ≤ 2 * t.height + 2
-
 /-- C19: on histories with at most one write or removal per key per version, v2's in-place
     algorithm builds the tree v1's path-copying algorithm builds (up to node keys) -/
 def v2_eq_v1_goal : Prop :=
